@@ -234,6 +234,11 @@ pub fn edge_cases() -> Vec<String> {
         "extern type A<const C: B>; extern type B<const C: A>;", "struct S<const C: S> {}",
         "enum E<const C: E> { A }", "type T<const C: T> = u8;", "extern fn f<const C: f>() nopanic;",
         "extern type A<T, impl I: X<A<T>>>;", "extern type A<+A<u8>>;", "extern type A<const C: [A; 1]>;",
+        // F7 / F8 / F9 (semantic leg)
+        "mod c { use e::*; } use c::*; use x;", "mod c{use e::*}use c::*use", "mod c { use e::*; } use c::*;",
+        "fn g() -> X { } fn f() { let () = g(); }", "fn g() -> fn() { } fn f() { let (a,) = g(); }",
+        "fn f(x: X) { let (a, b) = x; }", "fn g() -> X { } fn f() { let [a] = g(); }",
+        "mod inner { e!(); } use inner::*; use x;", "mod inner{e(}use inner::*use", "mod inner { e!(); } use inner::*;",
     ]
     .into_iter()
     .map(String::from)
